@@ -13,7 +13,7 @@ from fractions import Fraction
 from .model import PREFIXES
 
 NUMBER = r'[+-]?(?:\d+\.?\d*|\.\d+)(?:[eE][+-]?\d+)?'
-_Q = re.compile(rf'^({NUMBER}) (\S+)$')
+_Q = re.compile(rf'^({NUMBER}) (\S+)\Z')
 
 
 class Unreadable(ValueError):
@@ -41,10 +41,10 @@ def quantity(text):
     return Fraction(m.group(1)) * mult, fam
 
 
-_C_PLAIN = re.compile(rf'^({NUMBER}) ([^\s/]+)/([^\s/]+)$')
-_C_W = re.compile(rf'^({NUMBER}) ([^\s/]+)/({NUMBER}) ([^\s/]+)$')
-_C_M = re.compile(rf'^({NUMBER}) (\S*)([Mm])$')
-_C_PCT = re.compile(rf'^({NUMBER}) (%w/w|%v/v|%w/v)$')
+_C_PLAIN = re.compile(rf'^({NUMBER}) ([^\s/]+)/([^\s/]+)\Z')
+_C_W = re.compile(rf'^({NUMBER}) ([^\s/]+)/({NUMBER}) ([^\s/]+)\Z')
+_C_M = re.compile(rf'^({NUMBER}) (\S*)([Mm])\Z')
+_C_PCT = re.compile(rf'^({NUMBER}) (%w/w|%v/v|%w/v)\Z')
 
 
 def concentration(text, wv='g/mL'):
